@@ -1528,6 +1528,11 @@ func loadPkg(dir string) *pkgFuncs {
 
 const modulePath = "github.com/flowmatters/openwater-core"
 
+// methods that only read their receiver (array interfaces of package data and a few std types)
+var readOnlyMethods = map[string]bool{"Get": true, "Get1": true, "Get2": true, "Get3": true, "Len": true, "Len1": true, "Shape": true,
+	"NDims": true, "NewIndex": true, "Index": true, "Contiguous": true, "Slice": true, "Unroll": true, "Maximum": true, "Minimum": true,
+	"String": true, "Error": true}
+
 func scanCallees(root string, s *Site, dir string, start []string, startImports map[string]string) {
 	type item struct {
 		dir, name string
@@ -1612,6 +1617,10 @@ func scanCallees(root string, s *Site, dir string, start []string, startImports 
 								report(v, id)
 							}
 						}
+					} else if id := rootIdent(f.X); id != nil && !local(id) && id.Obj != nil && id.Obj.Kind == ast.Var && !readOnlyMethods[f.Sel.Name] {
+						// any other method called on a package-level variable (sync.Map.Store / LoadOrStore, a mutex, a pool, a cache
+						// object …): state shared between cells, models and calls. Methods known to only read an array are exempt.
+						report(v, id)
 					}
 				}
 			}
